@@ -267,11 +267,12 @@ def validate_all_branches(rep, obs, module='Trace_Segno', tag='segno'):
 
 def exact_matrix_multipart(rep, tier, tags):
     """SegnoMP.tla: the pipeline machine for multi-part content, requested modes and ECI; design run + exact-matrix conformance"""
-    cfg = 'SegnoMP_quick.cfg' if tier == 'quick' else 'SegnoMP_thorough.cfg'
-    out, st = common.run_tlc('MC_SegnoMP', cfg=cfg, workers=common.NCPU, timeout=3000, xmx='12g')
-    rep.add_design('MC_SegnoMP', cfg, out, st, 'pipeline machine for multi-part content / requested mode / ECI: invariants C01_PayloadMP, C01_EciMP, '
-                   'C04_SmallestMP, C05_LevelMP, C13_TailMP evaluated with the reference decoder')
-    vecs = common.parse_vectors(out)
+    vecs = []
+    for cfg in ('SegnoMP_quick.cfg' if tier == 'quick' else 'SegnoMP_thorough.cfg', 'SegnoMP_hanzi.cfg'):
+        out, st = common.run_tlc('MC_SegnoMP', cfg=cfg, workers=common.NCPU, timeout=3000, xmx='12g')
+        rep.add_design('MC_SegnoMP', cfg, out, st, 'pipeline machine for multi-part content / requested mode (incl. hanzi) / ECI: invariants C01_PayloadMP, '
+                       'C01_EciMP, C04_SmallestMP, C05_LevelMP, C13_TailMP evaluated with the reference decoder')
+        vecs += common.parse_vectors(out)
     seen = {}
     for v in vecs:
         a = v['args']
